@@ -2,6 +2,7 @@
 from __future__ import annotations
 
 import fractions
+import random
 import warnings
 
 import core
@@ -149,6 +150,21 @@ def run(ctx):
         if rng.random() < 0.6 and 'yin' not in sel:
             sel.append('yin')
         suppr, static = rng.random() < 0.5, rng.random() < 0.4
+        prior = None
+        if rng.random() < 0.25:
+            # an earlier spreadsheet of the same process redefined built-in columns for itself (new_columns: other unit, integer
+            # format), before or after adding a column of its own; the measured spreadsheet uses the built-in definitions
+            over = [t for t in sel if cols[t]['numeric'] and t not in ('yin', 'yout')][:2] or ['speed']
+            prior = [(t, cols[t]['full'], 'zz', 7, '0') for t in over]
+            if rng.random() < 0.5:
+                prior.insert(rng.choice([0, len(prior)]), ('mytag', 'My tag', '', 7, '0.0'))
+            with gcommon.Scratch() as d0, core.quiet():
+                try:
+                    dev0, _, _ = build(random.Random(rng.randrange(1 << 30)))
+                    dev0.xlsx(verbose=False, book_name=str(d0 / 'first.xlsx'), columns_names=' '.join(['name'] + over), new_columns=prior)
+                except Exception:  # noqa: that export is not the one under measurement
+                    pass
+        ctx.count('sheet.prior_new_columns', str(prior is not None))
         with gcommon.Scratch() as d, core.quiet():
             err = None
             try:
